@@ -72,8 +72,57 @@ def model_of(p: dict, defines: dict | None = None):
     return predict(p["prog"], rom=p.get("rom") if p.get("rom") in ("low", "high") else None, files=p.get("files") or {}, defines=defines, tables=tables)
 
 
+def _coalesce(seq: list) -> list:
+    """Empty blocks dropped, blocks that continue exactly where the previous one ends joined: how a run of bytes is cut into
+    write_block calls is not part of any property (the order of the calls is)."""
+    out: list = []
+    for o, b in seq:
+        b = bytes(b)
+        if not b:
+            continue
+        if out and out[-1][0] is not None and o is not None and out[-1][0] + len(out[-1][1]) == o:
+            out[-1] = (out[-1][0], out[-1][1] + b)
+        else:
+            out.append((o, b))
+    return out
+
+
 def blocks_equal(model_blocks: list, got: list) -> str | None:
-    """None when the observed write_block sequence matches the prediction (offset None = unjudged offset)."""
+    """None when the observed write_block sequence matches the prediction (offset None = unjudged offset), also when the same
+    bytes at the same offsets in the same order are merely cut into calls differently."""
+    strict = _blocks_equal_strict(model_blocks, got)
+    if strict is None or any(o is None for o, _ in model_blocks):
+        return strict
+    if _blocks_equal_strict(_coalesce(model_blocks), _coalesce(got)) is None:
+        return None
+    # the calls may also come in another order as long as every byte of the output ends up the same (the order matters where blocks overlap,
+    # and there the later call wins)
+    if same_image(model_blocks, got):
+        return None
+    return strict
+
+
+def same_image(a: list, b: list) -> bool:
+    from vf.ref import ips
+
+    ia, ib = ips.Image(), ips.Image()
+    for img, seq in ((ia, a), (ib, b)):
+        for o, blk in seq:
+            if len(blk):
+                if o is None or o < 0:
+                    return False
+                img.write(o, bytes(blk))
+    return ia == ib
+
+
+def same_output(a: list, b: list) -> bool:
+    """Two write_block sequences that mean the same output: equal, equal after joining contiguous calls, or equal as images."""
+    a = [(o, bytes(x)) for o, x in a]
+    b = [(o, bytes(x)) for o, x in b]
+    return a == b or _coalesce(a) == _coalesce(b) or same_image(a, b)
+
+
+def _blocks_equal_strict(model_blocks: list, got: list) -> str | None:
     if len(model_blocks) != len(got):
         return f"{len(got)} block(s) written, {len(model_blocks)} expected: got {[(hex(a), len(b)) for a, b in got][:6]} expected {[(hex(a) if a is not None else None, len(b)) for a, b in model_blocks][:6]}"
     for i, ((eo, eb), (go, gb)) in enumerate(zip(model_blocks, got)):
@@ -124,6 +173,18 @@ def conservation(events: list, blocks: list) -> tuple[str | None, dict]:
     if cur:
         expected.append((cur_off, bytes(cur)))
     stats = {"produced_bytes": produced, "written_bytes": sum(len(b) for _, b in blocks), "emit_events": len(emits)}
+    got = [(o, bytes(b)) for o, b in blocks if len(b)]
+    if len(expected) != len(got) and all(eo is not None for eo, _ in expected):
+        # the writer may receive a run in several calls (or two runs that touch in one): compare run by run after joining contiguous calls
+        ex, gt = _coalesce(expected), _coalesce(got)
+        if len(ex) != len(gt):
+            return f"nodes produced {len(ex)} separate run(s) of bytes, the writer received {len(gt)} (after joining contiguous calls)", stats
+        for i, ((eo, eb), (go, gb)) in enumerate(zip(ex, gt)):
+            if gb != eb:
+                return f"run {i}: the writer received {len(gb)} byte(s) {gb[:12].hex()}.., the nodes produced {len(eb)} byte(s) {eb[:12].hex()}..", stats
+            if eo != go:
+                return f"run {i} written at file offset {go:#x} but the address it was assembled for maps to {eo:#x}", stats
+        return None, stats
     if len(expected) != len(blocks):
         return f"nodes produced {len(expected)} non-empty run(s) between position moves, the writer received {len(blocks)} block(s)", stats
     for i, ((eo, eb), (go, gb)) in enumerate(zip(expected, blocks)):
